@@ -3,6 +3,7 @@ package main
 // C20: signature help names the innermost enclosing call and the argument being typed.
 
 import (
+	"context"
 	"fmt"
 	"math/rand"
 	"strings"
@@ -139,11 +140,20 @@ func runC20(run *Run, replay string) {
 			}
 			fmt.Fprintf(&sb, "zv = vonly(\"a\", noargs(), 3)\n")
 		}
+		if _, ok := funcs["g1"]; ok {
+			// calls with more arguments than fixed parameters to the functions cut from one shared parameter list
+			fmt.Fprintf(&sb, "zg = g1(\"a\", g2(1, 2, 3, 4), \"c\")\n")
+		}
 		base := sb.String()
 		texts := append([]string{base}, histories(r, base, hist)...)
 		for ti, text := range texts {
 			w := newWorld()
-			pd := w.AddPath("root", schema.NewBodySchema(), map[string]string{"main.tf": text}, served)
+			// the table as generated, rendered before any query has run
+			funcsBefore := sigFuncsS(funcs)
+			// (a schema under which every attribute value is an expression of any type, so that the other requests look into the calls)
+			anyAttr := &schema.AttributeSchema{IsOptional: true, Constraint: schema.AnyExpression{OfType: cty.DynamicPseudoType}}
+			sch := &schema.BodySchema{AnyAttribute: anyAttr, Blocks: map[string]*schema.BlockSchema{"blk": {Body: &schema.BodySchema{AnyAttribute: anyAttr}}}}
+			pd := w.AddPath("root", sch, map[string]string{"main.tf": text}, served)
 			f := pd.Ctx.Files["main.tf"]
 			body, ok := f.Body.(*hclsyntax.Body)
 			if !ok {
@@ -159,6 +169,9 @@ func runC20(run *Run, replay string) {
 				cs = append(cs, L(Str(c.Name), rangeS(c.Range()), rangeS(c.OpenParenRange), rangeS(c.CloseParenRange), args))
 			}
 			d, _ := w.Dec.Path(pd.Path)
+			// other requests of an editing session come first (they are given the same function table)
+			safeCall("SemanticTokensInFile", func() (interface{}, error) { return d.SemanticTokensInFile(context.Background(), "main.tf") })
+			safeCall("CollectReferenceOrigins", func() (interface{}, error) { return d.CollectReferenceOrigins() })
 			src := []byte(text)
 			tbl := lcTable(src)
 			pairs := List{}
@@ -243,7 +256,7 @@ func runC20(run *Run, replay string) {
 					}
 				}
 			}
-			run.Case("signatures", []S{sigFuncsS(funcs), Str(text), cs, pairs}, T("allok"))
+			run.Case("signatures", []S{funcsBefore, Str(text), cs, pairs}, T("allok"))
 			if len(run.Res.Samples) < 2 && ti == 0 {
 				run.Sample(map[string]interface{}{"src": text, "calls": len(calls)})
 			}
